@@ -401,6 +401,19 @@ func (s *Sorts) Decls() string {
 	for _, n := range sl {
 		fmt.Fprintf(&b, "(declare-const emptyarr_%s (Array Int %s))\n", strings.TrimPrefix(n, "Slice_"), s.slices[n])
 	}
+	// validItem: a collection item of the property's input domain: not nil, not a typed-nil pointer
+	b.WriteString("(define-fun validItem ((x Any)) Bool (and (not ((_ is nil_any) x))")
+	for _, t := range s.universe {
+		switch t.Underlying().(type) {
+		case *types.Pointer, *types.Map, *types.Signature:
+			c, _ := s.Ctor(t)
+			fmt.Fprintf(&b, " (=> ((_ is %s) x) (> (u%s x) 0))", c, c)
+		}
+	}
+	b.WriteString("))\n")
+	if _, ok := s.slices["Slice_Any"]; ok {
+		b.WriteString("(define-fun validColl ((c Slice_Any)) Bool (forall ((i!v Int)) (! (=> (and (<= 0 i!v) (< i!v (len_Any c))) (validItem (select (arr_Any c) i!v))) :pattern ((select (arr_Any c) i!v)))))\n")
+	}
 	// handle boxing UFs for Any-mentioning payloads
 	seenH := map[string]bool{}
 	for _, t := range s.universe {
